@@ -50,6 +50,10 @@ pub fn gen_link_set(t: &mut Tape, cfg: &LinkCfg) -> Vec<SrcFile> {
     // base of the grid: usually x3000; x0000 makes address 0 a definition address (the placeholder address of
     // external labels), xFD00 puts blocks next to the I/O page (files that reach into it are dropped below)
     let base: i64 = [0x3000, 0x0000, 0xFD00][t.weighted(&[5, 2, 1])];
+    // two files may define one label at the same address: the label on the `.end` of a block of file 0 and on the
+    // first word of a block of file 1 that touches it
+    let shared = t.chance(1, 8);
+    let mut shared_at: Option<i32> = None;
     for fi in 0..nfiles {
         let nblocks = 1 + t.pick(2);
         let mut prog: Vec<MStmt> = vec![];
@@ -126,6 +130,21 @@ pub fn gen_link_set(t: &mut Tape, cfg: &LinkCfg) -> Vec<SrcFile> {
         }
         for (_, e) in ext_pos.drain(..).filter(|(p, _)| *p == nblocks) {
             prog.push(MStmt { labels: vec![], kind: MKind::External(flip_case(t, &e)) });
+        }
+        if shared && fi == 0 {
+            prog.push(MStmt { labels: vec![], kind: MKind::Orig(0xE800) });
+            let mut len = 0;
+            for _ in 0..1 + t.pick(3) {
+                let k = small_stmt(t);
+                len += k.size() as i32;
+                prog.push(MStmt { labels: vec![], kind: k });
+            }
+            prog.push(MStmt { labels: vec!["ZZSHARED".into()], kind: MKind::End });
+            shared_at = Some(0xE800 + len);
+        } else if let (true, 1, Some(at)) = (shared, fi, shared_at) {
+            prog.push(MStmt { labels: vec![], kind: MKind::Orig(at) });
+            prog.push(MStmt { labels: vec![flip_case(t, "ZZSHARED")], kind: MKind::Fill(Opnd::Num(1)) });
+            prog.push(MStmt { labels: vec![], kind: MKind::End });
         }
         let model = asm_model(&prog);
         if !model.ok() {
